@@ -351,6 +351,41 @@ var longAlphabets = [][]rune{
 var foldLongProp = vp.Register(vp.Prop[FoldCase]{
 	Kind: "c13.fold-long", Base: 40000,
 	Gen: func(t *rapid.T) FoldCase {
+		if rapid.IntRange(0, 5).Draw(t, "compensated") == 0 {
+			// Width-compensated matches: the window of the haystack and the
+			// needle have the same byte length although their first and last
+			// runes have different widths (s ... U+017F against U+017F ... s,
+			// k ... U+212A against U+212A ... k), in front of and behind an
+			// ASCII-only padding of 0..40 bytes (whole machine words of ASCII
+			// may be skipped by a scan that thinks no match can start there).
+			pairs := [][2]rune{{'s', 'ſ'}, {'S', 'ſ'}, {'k', 'K'}, {'K', 'K'}}
+			p := rapid.SampledFrom(pairs).Draw(t, "pair")
+			narrowFirst := rapid.Bool().Draw(t, "narrowfirst")
+			pad := func(label string) string {
+				return rapid.StringOfN(rapid.RuneFrom([]rune("ab-: 0AB")), 0, 40, -1).Draw(t, label)
+			}
+			mid := rapid.StringOfN(rapid.RuneFrom([]rune("ab eE")), 0, 6, -1).Draw(t, "mid")
+			flip := func(x string) string {
+				return strings.Map(func(r rune) rune {
+					if r >= 'a' && r <= 'z' {
+						return r - 32
+					}
+					if r >= 'A' && r <= 'Z' {
+						return r + 32
+					}
+					return r
+				}, x)
+			}
+			hayCore, needle := string(p[0])+mid+string(p[1]), string(p[1])+flip(mid)+string(p[0])
+			if !narrowFirst {
+				hayCore, needle = needle, hayCore
+			}
+			c := FoldCase{S: pad("before") + hayCore + pad("after"), Sub: needle}
+			if rapid.IntRange(0, 3).Draw(t, "spoil") == 0 {
+				c.Sub += "#" // a near miss
+			}
+			return c
+		}
 		alphabet := rapid.SampledFrom(longAlphabets).Draw(t, "alphabet")
 		var n int
 		if rapid.Bool().Draw(t, "boundary") {
